@@ -97,10 +97,12 @@ struct World {
 
 	explicit World(unsigned long long seed) {
 		Rng r{seed * 77 + 5};
-		int n = r.next() % 4;
+		// the sizes of the two callback lists are enumerated, not drawn: any 12 consecutive seeds cover every pair
+		// (destination of 0..3 callbacks, source of 0..2), among them the empty destination with a source of two
+		int n = (int)(seed % 4);
 		for(int i = 0; i < n; ++i) h.push_back(list.append(Cb(10 + i)));
 		if(n > 1 && r.next() % 2) list.remove(h[r.next() % n]);
-		int m = r.next() % 3;
+		int m = (int)((seed / 4) % 3);
 		for(int i = 0; i < m; ++i) other.append(Cb(20 + i));
 		int nl = 1 + r.next() % 2;
 		for(int i = 0; i < nl; ++i) q.appendListener(1, PCb(30 + i));
